@@ -66,10 +66,18 @@ class SubstituteInterpretation(Interpretation):
     def interpret(self, cls, *args):
         with self.base_interpretation:
             expr = cls(*args)
-            fresh = expr.fresh if self.fresh is None else expr.fresh & self.fresh
+            if self.fresh is None:
+                fresh = expr.fresh
+            else:
+                fresh = self.fresh.intersection(expr.inputs)
             fresh_subs = tuple((k, v) for k, v in self.subs if k in fresh)
             if fresh_subs:
-                expr = instrument.debug_logged(expr.eager_subs)(fresh_subs)
+                if all(k in expr.fresh for k, v in fresh_subs):
+                    expr = instrument.debug_logged(expr.eager_subs)(fresh_subs)
+                else:
+                    # The rebuilt term evaluated to a term of another kind in
+                    # which these names are ordinary inputs.
+                    expr = Subs(expr, fresh_subs)
             if instrument.PROFILE:
                 instrument.COUNTERS["interpretation"]["substitute"] += 1
             return expr
